@@ -1,6 +1,10 @@
 //! Harness binary for the AIGER parsers (flussab-aiger).
+mod c03;
+mod c06;
 mod catalogue;
+mod flat;
 mod gen;
+mod refparse;
 mod subjects;
 
 use mc_core::generic::{self, C01Params, C04Params, Corruption};
@@ -26,6 +30,13 @@ fn main() {
         let text = std::fs::read_to_string(cli.file.as_ref().expect("replay needs a file")).unwrap();
         let v: Value = mc_core::serde_json::from_str(&text).unwrap();
         let v = if v.get("replay").is_some() { v["replay"].clone() } else { v };
+        let prop = v["property"].as_str().unwrap_or("").to_string();
+        if prop == "C06" || prop == "C03" {
+            let (violated, text) = if prop == "C06" { c06::replay(&v) } else { c03::replay(&v) };
+            println!("{text}");
+            println!("{}", if violated { "REPLAY: property violated" } else { "REPLAY: property holds" });
+            std::process::exit(if violated { 1 } else { 0 });
+        }
         let subject = subjects::by_name(v["subject"].as_str().unwrap());
         let (violated, text) = match v["property"].as_str().unwrap_or("") {
             "C01" => generic::c01_replay(subject.as_ref(), &v),
@@ -143,6 +154,14 @@ fn main() {
             }
             report.traces = report.evaluations;
             "every well-formed corpus document x streaming subject, delivered by a source that hands out at most the rest of the current line per read (choice: any shorter amount; deviation bounded) x chunk sizes; at the moment each item is returned the source must not have been asked beyond the line that completes the item (completing line = line containing the end of the shortest prefix on which the parser, given end of input, returns the same item)".into()
+        }
+        "C03" => {
+            c03::run(tier, &mut report, &|format| gen::inputs(format, tier).all());
+            c03::RULE.into()
+        }
+        "C06" => {
+            c06::run(tier, &mut report, &|format| gen::inputs(format, tier).all());
+            c06::RULE.into()
         }
         other => {
             eprintln!("mc-aiger: unknown property {other:?}");
